@@ -239,6 +239,16 @@ func init() {
 			return ret(f, retTo, ex.tb.False())
 		}
 	}
+	// MaybeNil(x any, isNil bool) any: x, or nil when isNil - without forking: the nil-ness stays symbolic in comparisons
+	intrinsics[verifrtPath+"MaybeNil"] = func(ex *Exec, st *State, f *Frame, fn FuncV, args []Value, retTo ssa.Value, instr ssa.Instruction) bool {
+		i, ok := args[0].(Iface)
+		c, ok2 := args[1].(*Term)
+		if !ok || !ok2 || i.T == nil {
+			panic(cutPath{"verifrt.MaybeNil: needs a non-nil interface value and a boolean"})
+		}
+		i.SymNil = c
+		return ret(f, retTo, i)
+	}
 	intrinsics[verifrtPath+"Note"] = func(ex *Exec, st *State, f *Frame, fn FuncV, args []Value, retTo ssa.Value, instr ssa.Instruction) bool {
 		return ret(f, retTo, nil)
 	}
@@ -474,6 +484,9 @@ func init() {
 func (ex *Exec) intrinsic(name string, fn *ssa.Function) intrinsicFn {
 	if h, ok := intrinsics[name]; ok {
 		return h
+	}
+	if strings.HasPrefix(name, verifrtPath+"MaybeNil[") { // generic instantiation
+		return intrinsics[verifrtPath+"MaybeNil"]
 	}
 	// package initialisers called from other initialisers: handled by the init phase
 	if fn.Synthetic == "package initializer" {
